@@ -8,6 +8,7 @@ import (
 	"math/rand/v2"
 	"os"
 	"runtime"
+	"runtime/pprof"
 	"sort"
 	"sync"
 	"sync/atomic"
@@ -181,6 +182,7 @@ type c41Stream struct {
 	refuseTry int
 	refuseDrp int
 	multiPkt  bool // some frame carries (parts of) more than one packet
+	maxSpan   int
 }
 
 func c41MTUBucket(m int) string {
@@ -398,6 +400,7 @@ func (s *c41Stream) prepare() {
 			n++
 		}
 		s.span[k] = n
+		s.maxSpan = max(s.maxSpan, n)
 		if k > 0 && fi < len(s.frames) && a > starts[fi] {
 			s.multiPkt = true
 		}
@@ -484,9 +487,11 @@ type c41Delivery struct {
 // processFrame on this goroutine (optionally with cleanup() at the given
 // positions); rx "run" queues them on the worker's ring for the real Run loop.
 func (cx *c41Ctx) receive(streams []*c41Stream, sched []c41Delivery, rx string, cleanups map[int]int) (out [][]byte, poolMiss int) {
+	// A reassembly list only ever holds one consecutive run of frames of the
+	// packet being reassembled, so a stream parks at most maxSpan+1 buffers.
 	weight := 2
 	for _, s := range streams {
-		weight += min(dataplane.VerifReassemblyListCap, len(s.frames)) + 1
+		weight += min(dataplane.VerifReassemblyListCap, s.maxSpan+1, len(s.frames)) + 1
 	}
 	if rx == "run" {
 		weight += 66
@@ -760,10 +765,7 @@ func (cx *c41Ctx) runCase(idx int) {
 			continue
 		}
 		cx.judgeLossless(c, []int{si}, out, "lossless", rx, sched, wit)
-		maxSpan := 0
-		for _, n := range s.span {
-			maxSpan = max(maxSpan, n)
-		}
+		maxSpan := s.maxSpan
 		vers := map[string]bool{}
 		inv := false
 		for _, p := range s.Pkts {
@@ -949,6 +951,11 @@ func checkC41(r *mon.Run) {
 		"two encoders never share a stream id; stream ids differ in their low 20 bits",
 		"frame-header conformance with doc/sig.rst (index, sequence) is noted in witnesses, not judged separately",
 		"in the fault phase only integrity of emitted packets is demanded, not delivery, order or uniqueness",
+	}
+	if p := os.Getenv("VERIF_CPUPROFILE"); p != "" { // developer aid, no effect on the check
+		if f, err := os.Create(p); err == nil && pprof.StartCPUProfile(f) == nil {
+			defer pprof.StopCPUProfile()
+		}
 	}
 	dataplane.VerifInitFramePool()
 	cx := &c41Ctx{r: r, pool: &c41Pool{free: dataplane.VerifFreeFramesCap - 24, total: dataplane.VerifFreeFramesCap - 24}}
